@@ -185,6 +185,9 @@ func genContent(t *simkit.Tape, kind string) []byte {
 	}
 	cfg.EmptyCDATA = false
 	cfg.Entities = false
+	if t.Bool(1, 4) {
+		cfg.Namespaces, cfg.NSMix = true, true
+	}
 	doc := model.GenXML(t, cfg)
 	return model.SerialiseXML(t, cfg, doc).Bytes
 }
@@ -317,8 +320,11 @@ func Gen(t *simkit.Tape, sched bool) *Scenario {
 			s.Args = append(s.Args, dirs[1])
 			s.R = t.Bool(1, 2)
 		}
-		if !sched && t.Bool(1, 8) {
-			s.Args = append(s.Args, "missing-file.xml")
+		if t.Bool(1, 8) {
+			// a path that does not exist, anywhere in the argument list (the inputs
+			// before and after it are processed as usual)
+			pos := t.Draw(len(s.Args) + 1)
+			s.Args = append(s.Args[:pos:pos], append([]string{"missing-file.xml"}, s.Args[pos:]...)...)
 		}
 	}
 	s.Expr = cliExprs[t.Draw(len(cliExprs))]
